@@ -42,14 +42,17 @@ Rec(op, s, p, sv, cv, exp) ==
 \* slots are used in order (symmetry)
 Fresh(s) == srv[s] = "none" /\ cli[s] = "none" /\ \A t \in Slots : t < s => srv[t] # "none" \/ cli[t] # "none"
 
+\* server hook verdicts: "ok"; "reject"; "panic" (the hook panics: the same as a rejection); "idmod" (the hooks succeed, and on the
+\* way one of them assigns a session id of its own and a later one wraps the connection with ModifySocket)
+SrvRej(sv) == sv \in {"reject", "panic"}
 Establish(s, p, sv, cv) ==
   /\ Fresh(s) /\ ~sclosed /\ ~cclosed
-  /\ srv' = [srv EXCEPT ![s] = IF sv = "reject" THEN "rej" ELSE IF cv = "reject" THEN "down" ELSE "up"]
-  /\ cli' = [cli EXCEPT ![s] = IF cv = "reject" THEN "rej" ELSE IF sv = "reject" THEN "down" ELSE "up"]
+  /\ srv' = [srv EXCEPT ![s] = IF SrvRej(sv) THEN "rej" ELSE IF cv = "reject" THEN "down" ELSE "up"]
+  /\ cli' = [cli EXCEPT ![s] = IF cv = "reject" THEN "rej" ELSE IF SrvRej(sv) THEN "down" ELSE "up"]
   /\ path' = [path EXCEPT ![s] = p]
-  /\ how' = [how EXCEPT ![s] = IF sv = "reject" THEN "rejsrv" ELSE IF cv = "reject" THEN "rejcli" ELSE ""]
+  /\ how' = [how EXCEPT ![s] = IF SrvRej(sv) THEN "rejsrv" ELSE IF cv = "reject" THEN "rejcli" ELSE ""]
   /\ UNCHANGED <<sclosed, cclosed>>
-  /\ Rec("establish", s, p, sv, cv, IF sv = "ok" /\ cv = "ok" THEN "live" ELSE "notlive")
+  /\ Rec("establish", s, p, sv, cv, IF ~SrvRej(sv) /\ cv = "ok" THEN "live" ELSE "notlive")
 
 \* a Dial to a peer whose Close() has run: the listener is gone
 DialClosed(s) ==
@@ -78,7 +81,7 @@ PeerClose(side) ==   \* Peer.Close(): every session of that peer is closed, so e
   /\ UNCHANGED path
   /\ Rec("peerclose" \o side, 0, "none", "ok", "ok", "ended")
 
-Next == \/ \E s \in Slots, p \in Paths, sv \in {"ok", "reject"}, cv \in {"ok", "reject"} : Establish(s, p, sv, cv)
+Next == \/ \E s \in Slots, p \in Paths, sv \in {"ok", "reject", "panic", "idmod"}, cv \in {"ok", "reject"} : Establish(s, p, sv, cv)
         \/ \E s \in Slots : DialClosed(s) \/ End("closecli", s) \/ End("closesrv", s) \/ End("cut", s) \/ Call(s)
         \/ PeerClose("srv") \/ PeerClose("cli")
 Spec == Init /\ [][Next]_vars
